@@ -126,6 +126,118 @@ func generalCfg(i int, r *Rng) HistCfg {
 	return cfg
 }
 
+func sharedcollCfg(i int, r *Rng) HistCfg {
+	cfg := generalCfg(i, r)
+	cfg.Conns = 2 + r.Intn(3)
+	cfg.NRes = 3 + r.Intn(3)
+	cfg.PColl = 60 + r.Intn(30)
+	cfg.PRef = 30 + r.Intn(30)
+	cfg.PErr = 0
+	cfg.Mode = "burst"
+	cfg.W = map[string]int{"sub": 25, "unsub": 8, "get": 4, "add": 14, "remove": 22, "change": 6, "custom": 2, "answer": 8, "quiesce": 2}
+	return cfg
+}
+
+func refgraphCfg(i int, r *Rng) HistCfg {
+	cfg := generalCfg(i, r)
+	cfg.PRef = 35 + r.Intn(30)
+	cfg.NRes = 3 + r.Intn(4)
+	cfg.W = map[string]int{"sub": 22, "unsub": 18, "get": 3, "callres": 3, "change": 22, "add": 12, "remove": 10, "custom": 3, "answer": 12, "quiesce": 3}
+	return cfg
+}
+
+func requestsCfg(i int, r *Rng) HistCfg {
+	cfg := generalCfg(i, r)
+	cfg.Mode = "burst"
+	cfg.Burst = 4 + r.Intn(8)
+	cfg.GetOutcome = [4]int{70, 12, 9, 9}
+	cfg.W = map[string]int{"sub": 20, "unsub": 14, "get": 12, "call": 8, "callres": 8, "new": 5, "auth": 4, "change": 6, "add": 3, "remove": 3, "custom": 3, "delete": 1, "reaccess": 3, "answer": 14, "quiesce": 2}
+	return cfg
+}
+
+func accountingCfg(i int, r *Rng) HistCfg {
+	cfg := generalCfg(i, r)
+	cfg.Mode = "seq"
+	cfg.NRes = 2 + r.Intn(4)
+	cfg.GetOutcome = [4]int{70, 12, 9, 9}
+	cfg.AccessOutcome = [4]int{76, 10, 8, 6}
+	cfg.W = map[string]int{"sub": 24, "unsub": 24, "get": 10, "call": 3, "callres": 10, "new": 5, "auth": 5, "change": 4, "add": 2, "remove": 2, "delete": 1, "reaccess": 2}
+	return cfg
+}
+
+func eventdenseCfg(i int, r *Rng) HistCfg {
+	cfg := generalCfg(i, r)
+	cfg.Conns = 1 + r.Intn(4)
+	cfg.NRes = 2 + r.Intn(4)
+	cfg.Steps = 30 + r.Intn(30)
+	cfg.Pct = []int{15, 40, 60}[r.Intn(3)]
+	cfg.W = map[string]int{"sub": 14, "unsub": 8, "get": 2, "callres": 2, "custom": 30, "change": 16, "add": 8, "remove": 5, "reaccess": 5, "delete": 1, "answer": 10, "quiesce": 2}
+	return cfg
+}
+
+func lifecycleCfg(i int, r *Rng) HistCfg {
+	cfg := generalCfg(i, r)
+	cfg.Conns = 1 + r.Intn(6)
+	cfg.NRes = 2 + r.Intn(5)
+	cfg.Metrics = true
+	cfg.UnsubDelayMs = []int{0, 0, 1, 5}[r.Intn(4)]
+	cfg.GetOutcome = [4]int{70, 12, 9, 9}
+	cfg.SitePct = map[string]int{"cache.evict": 60}
+	cfg.W = map[string]int{"sub": 22, "unsub": 18, "get": 8, "call": 6, "callres": 4, "change": 6, "add": 3, "remove": 3, "custom": 3, "delete": 3, "recreate": 2, "disconnect": 4, "answer": 10, "quiesce": 3}
+	return cfg
+}
+
+func isolationCfg(i int, r *Rng) HistCfg {
+	cfg := generalCfg(i, r)
+	cfg.Conns = 2 + r.Intn(5)
+	cfg.CIDTags = true
+	cfg.NRes = 4 + r.Intn(5)
+	cfg.W = map[string]int{"sub": 20, "unsub": 10, "get": 6, "call": 8, "callres": 5, "auth": 5, "new": 2, "token": 12, "tokenreset": 6, "change": 8, "add": 4, "remove": 3, "custom": 6, "reaccess": 3, "answer": 10, "quiesce": 3}
+	return cfg
+}
+
+func disconnectsCfg(i int, r *Rng) HistCfg {
+	cfg := generalCfg(i, r)
+	cfg.Conns = 2 + r.Intn(4)
+	cfg.Mode = "burst"
+	cfg.Burst = 3 + r.Intn(10)
+	cfg.GetOutcome = [4]int{75, 10, 8, 7}
+	cfg.Metrics = true
+	cfg.W = map[string]int{"sub": 22, "unsub": 8, "get": 8, "call": 6, "callres": 6, "new": 2, "auth": 2, "change": 8, "add": 4, "remove": 3, "custom": 5, "reaccess": 3, "token": 3, "disconnect": 10, "answer": 8, "quiesce": 2}
+	return cfg
+}
+
+// histFamilies lists the history generators by family name. Every monitor runs
+// in every history, so each history-based check also runs a share of the other
+// families: a property violated only under another property's workload would
+// otherwise be counted there and reported nowhere.
+var histFamilies = []struct {
+	Name string
+	Cfg  func(i int, r *Rng) HistCfg
+}{
+	{"general", generalCfg}, {"sharedcoll", sharedcollCfg}, {"refgraph", refgraphCfg}, {"requests", requestsCfg},
+	{"accounting", accountingCfg}, {"eventdense", eventdenseCfg}, {"lifecycle", lifecycleCfg}, {"isolation", isolationCfg},
+	{"disconnects", disconnectsCfg}, {"gating", gatingCfg},
+}
+
+// runCross runs n histories of every family except the named ones.
+func runCross(c *RunCtx, n int, except ...string) {
+	if c.Race {
+		return
+	}
+	for _, f := range histFamilies {
+		skip := false
+		for _, e := range except {
+			if e == f.Name {
+				skip = true
+			}
+		}
+		if !skip {
+			runHistories(c, n, f.Name, f.Cfg)
+		}
+	}
+}
+
 func init() {
 	Register("C01", func(c *RunCtx) {
 		n := c.N(1600, 40000)
@@ -136,17 +248,8 @@ func init() {
 		// collections shared by several connections, modified while some of
 		// the subscribers still wait for referenced resources to load: every
 		// subscriber's load-time snapshot must stay what it was when taken
-		runHistories(c, n/4, "sharedcoll", func(i int, r *Rng) HistCfg {
-			cfg := generalCfg(i, r)
-			cfg.Conns = 2 + r.Intn(3)
-			cfg.NRes = 3 + r.Intn(3)
-			cfg.PColl = 60 + r.Intn(30)
-			cfg.PRef = 30 + r.Intn(30)
-			cfg.PErr = 0
-			cfg.Mode = "burst"
-			cfg.W = map[string]int{"sub": 25, "unsub": 8, "get": 4, "add": 14, "remove": 22, "change": 6, "custom": 2, "answer": 8, "quiesce": 2}
-			return cfg
-		})
+		runHistories(c, n/4, "sharedcoll", sharedcollCfg)
+		runCross(c, n/10, "general", "sharedcoll")
 		// query resources: subscribers of one normalised query, joined by a new
 		// alias after events were processed, all converge (the C13 cases with
 		// their convergence verdicts attributed to C01)
@@ -166,40 +269,22 @@ func init() {
 		if c.Race {
 			n = c.N(200, 4000)
 		}
-		runHistories(c, n, "refgraph", func(i int, r *Rng) HistCfg {
-			cfg := generalCfg(i, r)
-			cfg.PRef = 35 + r.Intn(30)
-			cfg.NRes = 3 + r.Intn(4)
-			cfg.W = map[string]int{"sub": 22, "unsub": 18, "get": 3, "callres": 3, "change": 22, "add": 12, "remove": 10, "custom": 3, "answer": 12, "quiesce": 3}
-			return cfg
-		})
+		runHistories(c, n, "refgraph", refgraphCfg)
+		runCross(c, n/10, "refgraph")
 	})
 	Register("C07", func(c *RunCtx) {
 		n := c.N(1600, 40000)
-		runHistories(c, n, "requests", func(i int, r *Rng) HistCfg {
-			cfg := generalCfg(i, r)
-			cfg.Mode = "burst"
-			cfg.Burst = 4 + r.Intn(8)
-			cfg.GetOutcome = [4]int{70, 12, 9, 9}
-			cfg.W = map[string]int{"sub": 20, "unsub": 14, "get": 12, "call": 8, "callres": 8, "new": 5, "auth": 4, "change": 6, "add": 3, "remove": 3, "custom": 3, "delete": 1, "reaccess": 3, "answer": 14, "quiesce": 2}
-			return cfg
-		})
+		runHistories(c, n, "requests", requestsCfg)
+		runCross(c, n/10, "requests")
 	})
 	Register("C08", func(c *RunCtx) {
 		n := c.N(1600, 40000)
-		runHistories(c, n, "accounting", func(i int, r *Rng) HistCfg {
-			cfg := generalCfg(i, r)
-			cfg.Mode = "seq"
-			cfg.NRes = 2 + r.Intn(4)
-			cfg.GetOutcome = [4]int{70, 12, 9, 9}
-			cfg.AccessOutcome = [4]int{76, 10, 8, 6}
-			cfg.W = map[string]int{"sub": 24, "unsub": 24, "get": 10, "call": 3, "callres": 10, "new": 5, "auth": 5, "change": 4, "add": 2, "remove": 2, "delete": 1, "reaccess": 2}
-			return cfg
-		})
+		runHistories(c, n, "accounting", accountingCfg)
 		// the access-gating workload (token changes, reaccess events, denials
 		// and errors as access answers): revocation and requests in progress
 		// release the same direct subscriptions
 		runHistories(c, n/4, "gating", gatingCfg)
+		runCross(c, n/10, "accounting", "gating")
 		if !c.Race {
 			c08Limit(c)
 		}
@@ -209,62 +294,32 @@ func init() {
 		if c.Race {
 			n = c.N(200, 4000)
 		}
-		runHistories(c, n, "eventdense", func(i int, r *Rng) HistCfg {
-			cfg := generalCfg(i, r)
-			cfg.Conns = 1 + r.Intn(4)
-			cfg.NRes = 2 + r.Intn(4)
-			cfg.Steps = 30 + r.Intn(30)
-			cfg.Pct = []int{15, 40, 60}[r.Intn(3)]
-			cfg.W = map[string]int{"sub": 14, "unsub": 8, "get": 2, "callres": 2, "custom": 30, "change": 16, "add": 8, "remove": 5, "reaccess": 5, "delete": 1, "answer": 10, "quiesce": 2}
-			return cfg
-		})
+		runHistories(c, n, "eventdense", eventdenseCfg)
+		runCross(c, n/10, "eventdense")
 	})
 	Register("C09", func(c *RunCtx) {
 		n := c.N(1600, 40000)
 		if c.Race {
 			n = c.N(200, 4000)
 		}
-		runHistories(c, n, "lifecycle", func(i int, r *Rng) HistCfg {
-			cfg := generalCfg(i, r)
-			cfg.Conns = 1 + r.Intn(6)
-			cfg.NRes = 2 + r.Intn(5)
-			cfg.Metrics = true
-			cfg.UnsubDelayMs = []int{0, 0, 1, 5}[r.Intn(4)]
-			cfg.GetOutcome = [4]int{70, 12, 9, 9}
-			cfg.SitePct = map[string]int{"cache.evict": 60}
-			cfg.W = map[string]int{"sub": 22, "unsub": 18, "get": 8, "call": 6, "callres": 4, "change": 6, "add": 3, "remove": 3, "custom": 3, "delete": 3, "recreate": 2, "disconnect": 4, "answer": 10, "quiesce": 3}
-			return cfg
-		})
+		runHistories(c, n, "lifecycle", lifecycleCfg)
+		runCross(c, n/10, "lifecycle")
 		if !c.Race {
 			c09LongNames(c)
 		}
 	})
 	Register("C10", func(c *RunCtx) {
 		n := c.N(1600, 40000)
-		runHistories(c, n, "isolation", func(i int, r *Rng) HistCfg {
-			cfg := generalCfg(i, r)
-			cfg.Conns = 2 + r.Intn(5)
-			cfg.CIDTags = true
-			cfg.NRes = 4 + r.Intn(5)
-			cfg.W = map[string]int{"sub": 20, "unsub": 10, "get": 6, "call": 8, "callres": 5, "auth": 5, "new": 2, "token": 12, "tokenreset": 6, "change": 8, "add": 4, "remove": 3, "custom": 6, "reaccess": 3, "answer": 10, "quiesce": 3}
-			return cfg
-		})
+		runHistories(c, n, "isolation", isolationCfg)
+		runCross(c, n/10, "isolation")
 	})
 	Register("C11", func(c *RunCtx) {
 		n := c.N(1600, 40000)
 		if c.Race {
 			n = c.N(200, 4000)
 		}
-		runHistories(c, n, "disconnects", func(i int, r *Rng) HistCfg {
-			cfg := generalCfg(i, r)
-			cfg.Conns = 2 + r.Intn(4)
-			cfg.Mode = "burst"
-			cfg.Burst = 3 + r.Intn(10)
-			cfg.GetOutcome = [4]int{75, 10, 8, 7}
-			cfg.Metrics = true
-			cfg.W = map[string]int{"sub": 22, "unsub": 8, "get": 8, "call": 6, "callres": 6, "new": 2, "auth": 2, "change": 8, "add": 4, "remove": 3, "custom": 5, "reaccess": 3, "token": 3, "disconnect": 10, "answer": 8, "quiesce": 2}
-			return cfg
-		})
+		runHistories(c, n, "disconnects", disconnectsCfg)
+		runCross(c, n/10, "disconnects")
 		if !c.Race {
 			c11HTTPAbort(c)
 		}
